@@ -138,10 +138,10 @@ class Tokenizer:
         """
         return self._stacks[-1][3]
 
-    def _push(self, context=0):
+    def _push(self, context=0, check_route=True):
         """Add a new token stack, context, and textbuffer to the list."""
         new_ident = (self._head, context)
-        if new_ident in self._bad_routes:
+        if check_route and new_ident in self._bad_routes:
             raise BadRoute(context)
 
         self._stacks.append([[], context, [], new_ident])
@@ -277,7 +277,7 @@ class Tokenizer:
             self._head += 1
             braces += 1
         has_content = False
-        self._push()
+        self._push(check_route=False)
 
         while braces:
             if braces == 1:
@@ -317,7 +317,7 @@ class Tokenizer:
             self._emit_all(self._pop())
         self._context |= contexts.TEMPLATE_PARAM_KEY
         self._emit(tokens.TemplateParamSeparator())
-        self._push(self._context)
+        self._push(self._context, check_route=False)
 
     def _handle_template_param_value(self):
         """Handle a template parameter's value at the head of the string."""
@@ -684,7 +684,7 @@ class Tokenizer:
         """Parse an HTML comment at the head of the wikicode string."""
         self._head += 4
         reset = self._head - 1
-        self._push()
+        self._push(check_route=False)
         while True:
             this = self._read()
             if this == self.END:
@@ -780,7 +780,7 @@ class Tokenizer:
                 self._fail_route()
             elif data.context & data.CX_ATTR_READY:
                 data.context = data.CX_ATTR_NAME
-                self._push(contexts.TAG_ATTR)
+                self._push(contexts.TAG_ATTR, check_route=False)
             elif data.context & data.CX_ATTR_NAME:
                 if chunk == "=":
                     data.context = data.CX_ATTR_VALUE | data.CX_NOTE_QUOTE
@@ -789,7 +789,7 @@ class Tokenizer:
                 if data.context & data.CX_NOTE_EQUALS:
                     self._push_tag_buffer(data)
                     data.context = data.CX_ATTR_NAME
-                    self._push(contexts.TAG_ATTR)
+                    self._push(contexts.TAG_ATTR, check_route=False)
             else:  # data.context & data.CX_ATTR_VALUE assured
                 escaped = self._read(-1) == "\\" and self._read(-2) != "\\"
                 if data.context & data.CX_NOTE_QUOTE:
@@ -822,7 +822,7 @@ class Tokenizer:
     def _handle_tag_open_close(self):
         """Handle the opening of a closing tag (``</foo>``)."""
         self._emit(tokens.TagOpenClose())
-        self._push(contexts.TAG_CLOSE)
+        self._push(contexts.TAG_CLOSE, check_route=False)
         self._head += 1
 
     def _handle_tag_close_close(self):
@@ -1030,7 +1030,7 @@ class Tokenizer:
                     self._emit_text("'''")
                     self._emit_style_tag("i", "''", stack)
                 else:
-                    self._push()
+                    self._push(check_route=False)
                     self._emit_style_tag("i", "''", stack)
                     self._emit_all(stack2)
                     self._emit_style_tag("b", "'''", self._pop())
@@ -1043,7 +1043,7 @@ class Tokenizer:
                 self._emit_text("''")
                 self._emit_style_tag("b", "'''", stack)
             else:
-                self._push()
+                self._push(check_route=False)
                 self._emit_style_tag("b", "'''", stack)
                 self._emit_all(stack2)
                 self._emit_style_tag("i", "''", self._pop())
@@ -1250,7 +1250,10 @@ class Tokenizer:
         reset_for_style = cell_context & contexts.TABLE_CELL_STYLE
         if reset_for_style:
             self._head = reset
-            self._push(contexts.TABLE_OPEN | contexts.TABLE_CELL_OPEN | line_context)
+            self._push(
+                contexts.TABLE_OPEN | contexts.TABLE_CELL_OPEN | line_context,
+                check_route=False,
+            )
             padding = self._handle_table_style("|")
             style = self._pop()
             # Don't parse the style separator:
